@@ -3,6 +3,7 @@
 from __future__ import annotations
 
 import sys
+from decimal import Decimal
 from typing import TYPE_CHECKING
 from typing import Any
 from typing import Generic
@@ -240,6 +241,15 @@ class FloatLiteral(Literal[float]):
 
     def __eq__(self, other: object) -> bool:
         return isinstance(other, FloatLiteral) and self.value == other.value
+
+    def __str__(self) -> str:
+        # Liquid float literals have no exponent notation: `1e-05` is a word.
+        s = repr(self.value)
+        if "e" in s or "E" in s:
+            s = format(Decimal(s), "f")
+            if "." not in s:
+                s += ".0"
+        return s
 
 
 class RangeLiteral(Expression):
